@@ -76,7 +76,45 @@ def actor_decl(actor, aimpl):
     return derive + d + "\n" + manual, ty, gen, where
 
 
+# ---- several handlers with different options in ONE #[message_handlers] block: the options of one handler must not leak
+# into the next (each handler's row of the table is decided on its own)
+MULTI_BASE = [("u32", "handler"), ("u32", "handler(no_log)"), ("result", "handler"), ("result", "handler(result)"),
+              ("result", "handler(no_log)"), ("alias", "handler(result)"), ("alias", "handler")]
+
+
+def multi_specs(tier):
+    rets = {r[0]: r for r in RETURNS}
+    base = [(rets[r], a) for r, a in MULTI_BASE]
+    out = [("multi", [x, y]) for x in base for y in base]
+    if tier == "thorough":
+        four = [base[0], base[2], base[3], base[4]]
+        out += [("multi", [x, y, z]) for x in four for y in four for z in four]
+    return out
+
+
+def program_multi(idx, handlers):
+    pre = "pub type MyRes = std::result::Result<u32, String>;\n"
+    decl = "#[derive(rsactor::Actor)]\npub struct A;\n"
+    msgs = "".join("pub struct M%d(pub u32);\n" % i for i in range(len(handlers)))
+    meths = ""
+    rows = []
+    for i, (ret, attr) in enumerate(handlers):
+        rname, rty, rval, syn, _ = ret
+        arrow = (" -> " + rty) if rty else ""
+        meths += "        #[%s]\n        pub async fn h%d(&mut self, _msg: M%d, _r: &ActorRef<Self>)%s {\n            %s\n        }\n" % (attr, i, i, arrow, rval)
+        if i == 0:
+            meths += "        pub fn helper(&self) -> u32 { 1 }\n"
+        rows.append({"name": "h%d" % i, "msg_ty": "M%d" % i, "ret": rname, "attr": attr, "expect_override": expect_override(ret, attr)})
+    src = ("pub mod p%d {\n    #![allow(dead_code, unused_imports)]\n    use rsactor::ActorRef;\n%s%s%s\n"
+           "    #[rsactor::message_handlers]\n    impl A {\n%s    }\n}\n") % (idx, _indent(pre), _indent(decl), _indent(msgs), meths)
+    oracle = {"module": "p%d" % idx, "ret": "+".join(h["ret"] for h in rows), "ret_ty": "-", "attr": "+".join(h["attr"] for h in rows), "actor": "unit", "msg": "plain",
+              "extra": True, "actor_impl": "derive", "expect_override": None, "msg_ty": None, "handlers": rows}
+    return src, oracle
+
+
 def program(idx, spec):
+    if spec[0] == "multi":
+        return program_multi(idx, spec[1])
     ret, attr, actor, msg, extra, aimpl = spec
     rname, rty, rval, syn, _ = ret
     decl, aty, gen, where = actor_decl(actor, aimpl)
@@ -129,7 +167,7 @@ def negative_source(body):
 def select(tier, seed):
     progs = all_programs()
     if tier == "thorough":
-        return progs
+        return progs + multi_specs(tier)
     rnd = random.Random(seed)
     # quick: every return spelling x attribute at least once, other axes sampled
     chosen = []
@@ -140,4 +178,4 @@ def select(tier, seed):
         chosen.append(rnd.choice(by[k]))
     rest = [p for p in progs if p not in chosen]
     chosen += rnd.sample(rest, min(36, len(rest)))
-    return chosen
+    return chosen + multi_specs(tier)
